@@ -226,7 +226,7 @@ def insertion_points(text, spans):
 # (no wording of any kind inside the glued tokens themselves)
 GLUED_RIGHT = ['-per-exhibit-A-attached-hereto-and-made-a-part-hereof-by-reference',
                '(see-exhibit-A)(see-exhibit-B)(see-exhibit-C)(see-exhibit-D)']
-GLUED_LEFT = ['(per-exhibit-A-attached)', '***NOTE***:']
+GLUED_LEFT = ['(per-exhibit-A-attached)', '***NOTE***']
 
 
 def gen_trigger_case(rng):
